@@ -26,21 +26,21 @@ type FuncInfo struct {
 }
 
 type World struct {
-	Pkgs   map[string]*packages.Package // by short name
-	Fset   *token.FileSet
-	Reg    *SortReg
-	CS     *Contracts
-	Funcs  map[string]*FuncInfo
-	ByObj  map[*types.Func]*FuncInfo
-	fresh  int
+	Pkgs    map[string]*packages.Package // by short name
+	Fset    *token.FileSet
+	Reg     *SortReg
+	CS      *Contracts
+	Funcs   map[string]*FuncInfo
+	ByObj   map[*types.Func]*FuncInfo
+	fresh   int
 	RepoDir string
 	// heap field sorts: "geometry.baseSeries.points" -> array term (global, immutable-heap model)
 	heap map[string]*Term
 	// dynamic type tags
-	typeTags map[string]int
-	boxTags map[string]*Term // mangled sort name of a boxed value struct -> its dynamic type tag
+	typeTags      map[string]int
+	boxTags       map[string]*Term // mangled sort name of a boxed value struct -> its dynamic type tag
 	ContractFiles []string
-	TrustedScan []string
+	TrustedScan   []string
 }
 
 func shortPkg(path string) string {
@@ -203,7 +203,7 @@ func shortPkgOf(n *types.Named) string {
 type unsupportedErr struct{ msg string }
 
 func unsupported(msg string) unsupportedErr { return unsupportedErr{msg} }
-func (u unsupportedErr) Error() string     { return "unsupported: " + u.msg }
+func (u unsupportedErr) Error() string      { return "unsupported: " + u.msg }
 
 // resolveSpecType maps a type name used in specs to (sort, go type).
 func (w *World) resolveSpecType(pkg, name string) (*Sort, types.Type) {
